@@ -38,9 +38,11 @@ def history(rnd, hist_id, length):
         o['snap'] = True
     ops += pre
     for _ in range(length):
-        op = fg.edit_op(rnd, 'a', span=rnd.choice([4, 8, 12]), other='b', weights=WEIGHTS)
-        op['snap'] = True
-        ops.append(op)
+        span = rnd.choice([4, 8, 12])
+        batch = fg.motif(rnd, 'a', span) if rnd.random() < 0.06 else [fg.edit_op(rnd, 'a', span=span, other='b', weights=WEIGHTS)]
+        for op in batch:
+            op['snap'] = True
+            ops.append(op)
     return core.case(ops, kind='history')
 
 
